@@ -236,9 +236,13 @@ def validate_taxonomy_tree(
                     child_to_parent[child_level][this_child] = this_parent
 
     # check that no parent lists the same child more than once
+    # and that every node above the leaf level has a child
     for parent_level in hierarchy[:-1]:
         for this_parent in taxonomy_tree[parent_level].keys():
             child_list = list(taxonomy_tree[parent_level][this_parent])
+            if len(child_list) == 0:
+                raise RuntimeError(
+                    f"{parent_level}:{this_parent} has no children")
             if len(set(child_list)) != len(child_list):
                 raise RuntimeError(
                     f"{parent_level}:{this_parent} lists a node "
